@@ -30,7 +30,7 @@ def load(name):
 def bins_of(pid):
     checks, extra = load("CHECKS"), load("EXTRA")
     b = [(checks[pid][0], checks[pid][1])]
-    b += [(p, x) for p, x, _ in extra.get(pid, [])]
+    b += [(e[0], e[1]) for e in extra.get(pid, [])]
     return b
 
 
